@@ -1,13 +1,515 @@
-//! C10 — not implemented yet.
+//! C10 — width / fill / alignment. Real code: `PatternEncoder::new(pattern).encode(..)` into a
+//! capturing `encode::Write` whose `write` accepts a scripted number of bytes per call; the message
+//! is a `Display` impl that emits its text in scripted `write_str` pieces.
+//!
+//! Case fields (see lean/Driver/C10.lean): forest tokens, level, message pieces, sink script.
+use crate::proto::*;
 use crate::rng::Rng;
+use log::{Level, Record};
+use log4rs::encode::{self, pattern::PatternEncoder, Color, Encode, Style};
+use std::fmt;
+use std::io;
 
-pub fn gen(_rng: &mut Rng, _n: usize, _thorough: bool, _emit: &mut dyn FnMut(String)) {}
-
-pub fn exec(_fields: &[&str]) -> String {
-    "unimplemented".to_owned()
+#[derive(Clone, Debug)]
+struct P {
+    fill: Option<char>,
+    right: Option<bool>,
+    min: Option<usize>,
+    max: Option<usize>,
 }
 
-/// child-process entry point (`verif-harness child c10 …`), for checks that need process-global state
+#[derive(Clone, Debug)]
+enum Node {
+    M(P),
+    L(P),
+    T(String),
+    G(P, Vec<Node>),
+    H(P, Vec<Node>),
+}
+
+// ---------------------------------------------------------------------------------------------
+// printing: case tokens and pattern text
+// ---------------------------------------------------------------------------------------------
+fn p_token(p: &P) -> String {
+    format!(
+        "{}/{}/{}/{}",
+        enc_opt(p.fill, |c| format!("{:x}", c as u32)),
+        match p.right {
+            None => "-",
+            Some(false) => "L",
+            Some(true) => "R",
+        },
+        enc_opt(p.min, |n| n.to_string()),
+        enc_opt(p.max, |n| n.to_string())
+    )
+}
+
+fn tokens(n: &Node, out: &mut Vec<String>) {
+    match n {
+        Node::M(p) => out.push(format!("m:{}", p_token(p))),
+        Node::L(p) => out.push(format!("l:{}", p_token(p))),
+        Node::T(s) => out.push(format!("t:{}", enc_str(s))),
+        Node::G(p, cs) => {
+            out.push(format!("g{}:{}", cs.len(), p_token(p)));
+            for c in cs {
+                tokens(c, out);
+            }
+        }
+        Node::H(p, cs) => {
+            out.push(format!("h{}:{}", cs.len(), p_token(p)));
+            for c in cs {
+                tokens(c, out);
+            }
+        }
+    }
+}
+
+/// `[[fill]align][min]['.' max]` so that `Parser::parameters` reads back exactly `p`:
+/// a fill is always followed by its alignment character (the parser only recognises a fill when
+/// the character after it is `<` or `>`); without a fill the first character after `:` is an
+/// alignment character, a digit, `.` or `}` and the one after it is never `<`/`>`.
+fn p_pattern(p: &P) -> String {
+    if p.fill.is_none() && p.right.is_none() && p.min.is_none() && p.max.is_none() {
+        return String::new();
+    }
+    let mut s = String::from(":");
+    if let Some(f) = p.fill {
+        s.push(f);
+    }
+    match p.right {
+        Some(false) => s.push('<'),
+        Some(true) => s.push('>'),
+        None => {}
+    }
+    if let Some(m) = p.min {
+        s.push_str(&m.to_string());
+    }
+    if let Some(m) = p.max {
+        s.push('.');
+        s.push_str(&m.to_string());
+    }
+    s
+}
+
+fn pattern(n: &Node, out: &mut String) {
+    match n {
+        Node::M(p) => {
+            out.push_str("{m");
+            out.push_str(&p_pattern(p));
+            out.push('}');
+        }
+        Node::L(p) => {
+            out.push_str("{l");
+            out.push_str(&p_pattern(p));
+            out.push('}');
+        }
+        Node::T(s) => {
+            for c in s.chars() {
+                if matches!(c, '{' | '}' | '(' | ')' | '\\') {
+                    out.push('\\');
+                }
+                out.push(c);
+            }
+        }
+        Node::G(p, cs) | Node::H(p, cs) => {
+            out.push_str(if matches!(n, Node::H(..)) { "{h(" } else { "{(" });
+            for c in cs {
+                pattern(c, out);
+            }
+            out.push(')');
+            out.push_str(&p_pattern(p));
+            out.push('}');
+        }
+    }
+}
+
+// ---------------------------------------------------------------------------------------------
+// decoding a case
+// ---------------------------------------------------------------------------------------------
+fn dec_p(s: &str) -> Option<P> {
+    let f: Vec<&str> = s.split('/').collect();
+    if f.len() != 4 {
+        return None;
+    }
+    let fill = if f[0] == "-" {
+        None
+    } else {
+        Some(u32::from_str_radix(f[0], 16).ok().and_then(char::from_u32)?)
+    };
+    let right = match f[1] {
+        "-" => None,
+        "L" => Some(false),
+        "R" => Some(true),
+        _ => return None,
+    };
+    let num = |x: &str| -> Option<Option<usize>> {
+        if x == "-" {
+            Some(None)
+        } else {
+            x.parse().ok().map(Some)
+        }
+    };
+    if fill.is_some() && right.is_none() {
+        return None;
+    }
+    Some(P { fill, right, min: num(f[2])?, max: num(f[3])? })
+}
+
+fn parse_nodes(toks: &[String], pos: &mut usize, k: usize) -> Option<Vec<Node>> {
+    let mut v = vec![];
+    for _ in 0..k {
+        let tok = toks.get(*pos)?;
+        *pos += 1;
+        let (head, arg) = tok.split_once(':')?;
+        let kind = head.chars().next()?;
+        let cnt = &head[kind.len_utf8()..];
+        let node = match kind {
+            'm' if cnt.is_empty() => Node::M(dec_p(arg)?),
+            'l' if cnt.is_empty() => Node::L(dec_p(arg)?),
+            't' if cnt.is_empty() => Node::T(dec_str(arg)?),
+            'g' | 'h' => {
+                let n: usize = cnt.parse().ok()?;
+                let p = dec_p(arg)?;
+                let cs = parse_nodes(toks, pos, n)?;
+                if kind == 'g' {
+                    Node::G(p, cs)
+                } else {
+                    Node::H(p, cs)
+                }
+            }
+            _ => return None,
+        };
+        v.push(node);
+    }
+    Some(v)
+}
+
+fn parse_forest(field: &str) -> Option<Vec<Node>> {
+    let toks = dec_list(',', field);
+    let mut pos = 0;
+    let mut v = vec![];
+    while pos < toks.len() {
+        v.extend(parse_nodes(&toks, &mut pos, 1)?);
+    }
+    Some(v)
+}
+
+// ---------------------------------------------------------------------------------------------
+// the capturing writer and the piecewise message
+// ---------------------------------------------------------------------------------------------
+struct Cap {
+    script: Vec<usize>,
+    idx: usize,
+    bytes: Vec<u8>,
+    styles: Vec<(usize, Style)>,
+}
+
+impl io::Write for Cap {
+    fn write(&mut self, buf: &[u8]) -> io::Result<usize> {
+        let k = self.script.get(self.idx).copied().unwrap_or(0);
+        self.idx += 1;
+        let n = if k == 0 { buf.len() } else { k.min(buf.len()) };
+        self.bytes.extend_from_slice(&buf[..n]);
+        Ok(n)
+    }
+    fn flush(&mut self) -> io::Result<()> {
+        Ok(())
+    }
+}
+
+impl encode::Write for Cap {
+    fn set_style(&mut self, style: &Style) -> io::Result<()> {
+        self.styles.push((self.bytes.len(), style.clone()));
+        Ok(())
+    }
+}
+
+struct Piecewise(Vec<String>);
+
+impl fmt::Display for Piecewise {
+    fn fmt(&self, f: &mut fmt::Formatter<'_>) -> fmt::Result {
+        for p in &self.0 {
+            f.write_str(p)?;
+        }
+        Ok(())
+    }
+}
+
+fn color_no(c: &Color) -> u32 {
+    match c {
+        Color::Black => 0,
+        Color::Red => 1,
+        Color::Green => 2,
+        Color::Yellow => 3,
+        Color::Blue => 4,
+        Color::Magenta => 5,
+        Color::Cyan => 6,
+        Color::White => 7,
+    }
+}
+
+fn enc_style(s: &Style) -> String {
+    format!(
+        "{}/{}/{}",
+        enc_opt(s.text.as_ref(), |c| color_no(c).to_string()),
+        enc_opt(s.background.as_ref(), |c| color_no(c).to_string()),
+        enc_opt(s.intense, |b| enc_bool(b).to_owned())
+    )
+}
+
+pub fn exec(fields: &[&str]) -> String {
+    if fields.len() != 4 {
+        return "bad-case".to_owned();
+    }
+    let forest = match parse_forest(fields[0]) {
+        Some(f) => f,
+        None => return "bad-case".to_owned(),
+    };
+    let level = match fields[1] {
+        "1" => Level::Error,
+        "2" => Level::Warn,
+        "3" => Level::Info,
+        "4" => Level::Debug,
+        "5" => Level::Trace,
+        _ => return "bad-case".to_owned(),
+    };
+    let pieces: Option<Vec<String>> = dec_list(',', fields[2]).iter().map(|s| dec_str(s)).collect();
+    let pieces = match pieces {
+        Some(p) => p,
+        None => return "bad-case".to_owned(),
+    };
+    let script: Option<Vec<usize>> = dec_list(',', fields[3]).iter().map(|s| s.parse().ok()).collect();
+    let script = match script {
+        Some(s) => s,
+        None => return "bad-case".to_owned(),
+    };
+    let mut pat = String::new();
+    for n in &forest {
+        pattern(n, &mut pat);
+    }
+    let r = guarded(move || {
+        let enc = PatternEncoder::new(&pat);
+        let mut cap = Cap { script, idx: 0, bytes: vec![], styles: vec![] };
+        let msg = Piecewise(pieces);
+        let res = enc.encode(
+            &mut cap,
+            &Record::builder().level(level).target("t").args(format_args!("{}", msg)).build(),
+        );
+        (res.is_ok(), cap.bytes, cap.styles)
+    });
+    match r {
+        Err(_) => "PANIC".to_owned(),
+        Ok((false, _, _)) => "err".to_owned(),
+        Ok((true, bytes, styles)) => {
+            let st: Vec<String> = styles.iter().map(|(pos, s)| format!("{}:{}", pos, enc_style(s))).collect();
+            format!("{} {}", enc_bytes(&bytes), enc_list(",", &st))
+        }
+    }
+}
+
+// ---------------------------------------------------------------------------------------------
+// generation
+// ---------------------------------------------------------------------------------------------
+const FILLS: &[char] = &[
+    ' ', '~', 'é', '中', '😀', '}', ':', '<', '>', '0', '7', '.', '-', '{', '(', ')', '\\', '\u{301}', 'm',
+];
+const ALPHA: &[char] = &[
+    'a', 'b', 'Z', ' ', '1', 'é', 'ß', '中', '€', '😀', '𝄞', '\u{301}', '\u{200d}', 'e', '~', ':', '>',
+];
+const LIT: &[char] = &['x', '-', ' ', 'é', '中', '😀', '{', '}', '(', ')', '\\', ':', '\u{308}'];
+const TEXTS: &[&str] = &[
+    "",
+    "a",
+    "hello",
+    "héllo wörld",
+    "中文字符串",
+    "a😀b😀c",
+    "e\u{301}e\u{301}e\u{301}",
+    "ab中😀é",
+    "😀",
+    "𝄞𝄞𝄞𝄞𝄞𝄞𝄞𝄞",
+    "ééééééééééééé",
+    "the quick brown fox",
+];
+
+fn rand_text(rng: &mut Rng, alpha: &[char], max: u64) -> String {
+    let n = rng.range(0, max);
+    (0..n).map(|_| *rng.pick(alpha)).collect()
+}
+
+fn split_pieces(rng: &mut Rng, s: &str) -> Vec<String> {
+    let cs: Vec<char> = s.chars().collect();
+    let mode = rng.below(4);
+    let mut out = vec![];
+    let mut cur = String::new();
+    for c in cs {
+        cur.push(c);
+        let cut = match mode {
+            0 => false,
+            1 => true,
+            _ => rng.chance(1, 3),
+        };
+        if cut {
+            out.push(std::mem::take(&mut cur));
+            if rng.chance(1, 8) {
+                out.push(String::new());
+            }
+        }
+    }
+    if !cur.is_empty() || out.is_empty() && rng.chance(1, 2) {
+        out.push(cur);
+    }
+    out
+}
+
+fn rand_script(rng: &mut Rng) -> Vec<usize> {
+    match rng.below(5) {
+        0 => vec![],
+        1 => vec![1; 80],
+        2 => (0..rng.range(1, 60)).map(|_| rng.range(1, 3) as usize).collect(),
+        3 => (0..rng.range(1, 60)).map(|_| *rng.pick(&[0usize, 1, 2, 3, 5])).collect(),
+        _ => (0..rng.range(1, 60)).map(|_| if rng.chance(1, 2) { 0 } else { rng.range(1, 4) as usize }).collect(),
+    }
+}
+
+fn rand_width(rng: &mut Rng, big: bool) -> Option<usize> {
+    match rng.below(10) {
+        0 | 1 => None,
+        2 => Some(0),
+        3 if big => Some(rng.range(13, 40) as usize),
+        _ => Some(rng.range(0, 12) as usize),
+    }
+}
+
+fn rand_p(rng: &mut Rng, big: bool) -> P {
+    if rng.chance(1, 8) {
+        return P { fill: None, right: None, min: None, max: None };
+    }
+    let right = match rng.below(5) {
+        0 => None,
+        1 | 2 => Some(false),
+        _ => Some(true),
+    };
+    let fill = if right.is_some() && rng.chance(2, 3) { Some(*rng.pick(FILLS)) } else { None };
+    let mut min = rand_width(rng, big);
+    let mut max = rand_width(rng, big);
+    // most cases inside the statement's region m <= M, a solid share outside
+    if let (Some(a), Some(b)) = (min, max) {
+        if a > b && rng.chance(2, 3) {
+            min = Some(b);
+            max = Some(a);
+        }
+    }
+    P { fill, right, min, max }
+}
+
+fn rand_node(rng: &mut Rng, depth: u64, big: bool) -> Node {
+    let leaf = depth == 0 || rng.chance(1, 3);
+    if leaf {
+        match rng.below(6) {
+            0 | 1 | 2 => Node::M(rand_p(rng, big)),
+            3 => Node::L(rand_p(rng, big)),
+            _ => Node::T(rand_text(rng, LIT, 5)),
+        }
+    } else {
+        let k = rng.range(0, 3);
+        let cs = (0..k).map(|_| rand_node(rng, depth - 1, big)).collect();
+        if rng.chance(1, 3) {
+            Node::H(rand_p(rng, big), cs)
+        } else {
+            Node::G(rand_p(rng, big), cs)
+        }
+    }
+}
+
+fn case_line(forest: &[Node], level: u64, pieces: &[String], script: &[usize]) -> String {
+    let mut toks = vec![];
+    for n in forest {
+        tokens(n, &mut toks);
+    }
+    let ps: Vec<String> = pieces.iter().map(|p| enc_str(p)).collect();
+    let sc: Vec<String> = script.iter().map(|k| k.to_string()).collect();
+    format!("{}\t{}\t{}\t{}", enc_list(",", &toks), level, enc_list(",", &ps), enc_list(",", &sc))
+}
+
+fn chars_split(s: &str) -> Vec<String> {
+    s.chars().map(|c| c.to_string()).collect()
+}
+
+pub fn gen(rng: &mut Rng, n: usize, thorough: bool, emit: &mut dyn FnMut(String)) {
+    // deterministic grid: one width spec on the message, every (m, M) pair of the grid, both
+    // alignments, several fills, whole-buffer and byte-by-byte sinks, whole and per-char pieces
+    let widths: Vec<Option<usize>> = if thorough {
+        let mut v = vec![None];
+        v.extend((0..=12).map(Some));
+        v
+    } else {
+        vec![None, Some(0), Some(1), Some(2), Some(3), Some(5), Some(7), Some(12)]
+    };
+    let fills: &[char] = if thorough { &[' ', '~', 'é', '中', '😀', '}', ':', '<', '0'] } else { &['~', '中', '😀'] };
+    let texts: &[&str] = if thorough { TEXTS } else { &TEXTS[..9] };
+    for text in texts {
+        for m in &widths {
+            for mx in &widths {
+                for right in [false, true] {
+                    for (fi, fill) in fills.iter().enumerate() {
+                        if m.is_none() && fi > 0 {
+                            continue;
+                        }
+                        let p = P { fill: Some(*fill), right: Some(right), min: *m, max: *mx };
+                        let (pieces, script): (Vec<String>, Vec<usize>) = match (fi + right as usize) % 3 {
+                            0 => (vec![text.to_string()], vec![]),
+                            1 => (chars_split(text), vec![1; 120]),
+                            _ => (vec![text.to_string()], vec![2; 120]),
+                        };
+                        emit(case_line(&[Node::M(p)], 3, &pieces, &script));
+                    }
+                }
+            }
+        }
+    }
+    // nested grid: {({m:>a.b}|{l:c}):f>m.M} shapes
+    let small: &[Option<usize>] = &[None, Some(0), Some(2), Some(4), Some(9)];
+    for text in &["ab中😀é", "e\u{301}x", ""] {
+        for a in small {
+            for b in small {
+                for m in small {
+                    for mx in small {
+                        let inner = Node::M(P { fill: Some('é'), right: Some(true), min: *a, max: *b });
+                        let lvl = Node::L(P { fill: None, right: None, min: Some(2), max: None });
+                        let outer = Node::G(
+                            P { fill: Some('😀'), right: Some(a.is_some()), min: *m, max: *mx },
+                            vec![inner.clone(), Node::T("|".to_owned()), lvl.clone()],
+                        );
+                        let hl = Node::H(P { fill: Some('<'), right: Some(true), min: *mx, max: *m }, vec![outer.clone()]);
+                        emit(case_line(&[outer], 2, &chars_split(text), &[1; 200]));
+                        if thorough || b.is_none() {
+                            emit(case_line(&[hl], 1, &[text.to_string()], &[3, 1, 2, 0, 1, 1, 4]));
+                        }
+                    }
+                }
+            }
+        }
+    }
+    // random stream
+    for _ in 0..n {
+        let big = thorough && rng.chance(1, 10);
+        let depth = if thorough { rng.range(0, 4) } else { rng.range(0, 3) };
+        let k = if rng.chance(3, 4) { 1 } else { rng.range(0, 3) };
+        let forest: Vec<Node> = (0..k).map(|_| rand_node(rng, depth, big)).collect();
+        let text = if rng.chance(1, 3) {
+            rng.pick(TEXTS).to_string()
+        } else {
+            rand_text(rng, ALPHA, if thorough { 24 } else { 14 })
+        };
+        let pieces = split_pieces(rng, &text);
+        let script = rand_script(rng);
+        let level = rng.range(1, 5);
+        emit(case_line(&forest, level, &pieces, &script));
+    }
+}
+
+/// child-process entry point (`verif-harness child c10 …`) — not needed for C10
 pub fn child(_args: &[String]) -> i32 {
     2
 }
